@@ -4,6 +4,7 @@ import (
 	"bufio"
 	"encoding/json"
 	"fmt"
+	"net"
 	"net/http"
 	"net/http/httptest"
 	"os"
@@ -14,7 +15,6 @@ import (
 	"time"
 
 	"github.com/gorilla/websocket"
-	"github.com/posener/wstest"
 	"github.com/resgateio/resgate/logger"
 	"github.com/resgateio/resgate/server"
 	"github.com/resgateio/resgate/server/mq"
@@ -78,6 +78,7 @@ type Client struct {
 	DialStatus int
 	DialHeader http.Header
 	NextID     uint64
+	pipe       net.Conn
 	Headers    map[string]string
 }
 
@@ -392,6 +393,9 @@ func (w *World) Exec(op Op) {
 }
 
 func (w *World) client(i int) *Client {
+	if i == -1 && len(w.Clients) > 0 {
+		return w.Clients[len(w.Clients)-1] // "the connection made last"
+	}
 	if i < 0 || i >= len(w.Clients) {
 		return nil
 	}
@@ -507,7 +511,7 @@ func (w *World) execOne(op Op) {
 	case "stop":
 		w.doStop()
 	case "lose":
-		w.mq.Lose()
+		w.doLose()
 	case "start":
 		w.doStart()
 	}
@@ -524,7 +528,8 @@ func (w *World) doConnect(op Op) {
 	c := &Client{w: w, Idx: idx, Ref: newRefClient(idx), NextID: 1, Headers: op.H}
 	w.Clients = append(w.Clients, c)
 	w.newActor = idx
-	d := wstest.NewDialer(http.HandlerFunc(w.svc.ServeHTTP))
+	d, pipe := newPipeDialer(http.HandlerFunc(w.svc.ServeHTTP))
+	c.pipe = pipe
 	h := http.Header{}
 	for k, v := range op.H {
 		h.Set(k, v)
@@ -774,6 +779,31 @@ func (w *World) doStop() {
 	}
 }
 
+// doLose simulates the loss of the messaging connection and waits for the
+// gateway to stop itself.
+func (w *World) doLose() {
+	if !w.started {
+		return
+	}
+	ch := w.stopCh
+	w.mq.Lose()
+	w.stopped = true
+	w.started = false
+	if ch == nil {
+		return
+	}
+	select {
+	case err, ok := <-ch:
+		if ok && err != nil {
+			w.StopSeen = append(w.StopSeen, err.Error())
+		} else {
+			w.StopSeen = append(w.StopSeen, "<nil>")
+		}
+	case <-time.After(30 * time.Second):
+		w.Deadlock = "the gateway did not stop within 30s after the messaging connection was lost"
+	}
+}
+
 func (w *World) doStart() {
 	if w.started {
 		return
@@ -795,6 +825,14 @@ func (w *World) Shutdown() {
 			c.ws.Close()
 		}
 	}
+	defer func() {
+		// unblock dials that never completed
+		for _, c := range w.Clients {
+			if c.pipe != nil {
+				c.pipe.Close()
+			}
+		}
+	}()
 	// answer nothing more; just stop
 	if w.started {
 		done := make(chan struct{})
